@@ -97,7 +97,7 @@ ReDownload:
 		log.Error("handleEventDownloadBlock", "SendRecvPeer", err, "pid", task.Pid)
 		p.releaseJob(task)
 		lockTasks()
-		tasks = tasks.Remove(task)
+		tasks = tasks.without(task)
 		unlockTasks()
 		goto ReDownload
 	}
